@@ -13,6 +13,7 @@ var registry = map[string]core.Harness{
 	"C27": KL{},
 	"C24": CON{},
 	"C28": AI{},
+	"C33": HIST{},
 }
 
 func TestSim(t *testing.T) { core.WorkerMain(t, registry) }
